@@ -37,6 +37,16 @@ def run(ck):
         if ck.mine(r_):
             long_lived(ck, mons, base + 7000 + r_, 300 if not ck.thorough() else 700)
 
+    # the directed families once more with EDGE-SHAPED SPIs / nonces / IVs (leading or trailing 0x00 / 0xff ...): the window rules do not depend on the octets drawn
+    def special():
+        for k_ in range(4 if not ck.thorough() else 40):
+            if ck.mine(k_ + 1):
+                direct_replays(ck, base + 18000 + k_, k_)
+                second_handshake_from_one_address(ck, base + 18500 + k_, k_)
+        if ck.mine(2):
+            long_lived(ck, mons, base + 17000, 60 if not ck.thorough() else 300)
+    S.special_pass(ck, 15080, special)
+
     def leaf(sc, path):
         sc.settle()
         ck.nontrivial(repr(sc.sim.case['actions']))
@@ -413,6 +423,7 @@ def direct_replays(ck, seed, k):
 
 def verdict(ck):
     c = ck.counters
+    ck.floor('(octet count, shape) classes of edge-shaped urandom() results (leading / trailing 0x00 / 0xff, top bit, zero inside) handed to the daemons in the special-values pass', len(ck.sets['special_values.shapes']), 12)
     ck.floor('schedules of initial exchanges with COOKIE / INVALID_KE_PAYLOAD rounds under duplication in which nothing was lost', c['initial_with_retries.lossless_leaves'], 300)
     ck.floor('runs with two or three handshakes from one address under different SPIs, all completed', c['second_handshake.all_completed'], 8)
     ck.floor('older requests fed again to the IkeSa entry point and dropped', c['direct_replays.older_request_dropped'], 20)
